@@ -25,6 +25,9 @@ func runC18(c *Ctx) {
 	c.Clause("C18.4 allocations sized by a peer-supplied frame length are preceded by a limit comparison")
 	c.Clause("C18.5 every index, slice, computed-size allocation, explicit panic, unchecked assertion and integer division reachable from the HTTP/3 frame, SETTINGS, capsule, field-section and datagram parsers is compiler-proven or follows from a length fact on that very slice")
 	c.Clause("C18.6 the client reads the request body only through the cancelingReader wrapper")
+	c.Clause("C18.7 http3 state shared between request goroutines (server listeners / closed flag, transport client map, tracked streams, stream-ID watermarks) is accessed under its owner's mutex")
+	c.Clause("C18.8 responseWriter.Write counts and limit-checks every byte before accepting it, HEAD included")
+	c.Clause("C18.9 decoded header and trailer fields accumulate under repeated names")
 	c.NotCovered("end-to-end equality of what the handler sees and what the client sent")
 	c.NotCovered("behaviour under packet loss (delegated to the QUIC layer properties)")
 
@@ -35,6 +38,8 @@ func runC18(c *Ctx) {
 	c.rule("C18.5", func() { c18Bounds(c) })
 	c.rule("C18.6", func() { c18BodyThroughCancelingReader(c) })
 	c.rule("C18.7", func() { c18Guarded(c) })
+	c.rule("C18.8", func() { c18WriteAccounting(c) })
+	c.rule("C18.9", func() { c18FieldsAccumulate(c) })
 }
 
 func c18Nil(c *Ctx) {
